@@ -41,7 +41,7 @@ def run(v, tier, seed):
 
     # ------------------------------------------------------------------------------------------------ 1. model checking (+ generation of the cases)
     def model_check():
-        name = cfg("gen_OQ_MC.cfg", "FairSpec", [], 3, "all", ["TypeOK", "ResultIsAbs", "OthersStay", "NoEmptyItems", "Emit"], ["Terminates"])
+        name = cfg("gen_OQ_MC.cfg", "FairSpec", [], 3 if quick else 4, "all", ["TypeOK", "ResultIsAbs", "OthersStay", "NoEmptyItems", "Emit"], ["Terminates"])
         r = vlib.tlc("OQGen", name, FAM, coverage=True, workers=6, timeout=2400, heap="8g")
         vlib.require_ok(r, "OutQueue model check")
         vlib.require_coverage(r, ACTIONS, "OutQueue")
@@ -67,26 +67,47 @@ def run(v, tier, seed):
         rc, out, err = vlib.run([srv] + args, timeout=to, env=env)
         rows = vlib.read_ndjson(rep) if os.path.exists(rep) else []
         cur = None
-        if rc != 0:
+        if rc != 0 or any(r.get("hang") for r in rows):
             try: cur = json.loads(open(rep + ".cur").read())
             except Exception:
                 try: cur = open(rep + ".cur").read()[:3000]
                 except Exception: cur = None
         return {"tag": tag, "rc": rc, "rows": rows, "stderr": err[-6000:], "cur": cur}
 
-    def oq_replay(cases, k):
-        cf_ = W("oq%d.ndjson" % k); rep = W("oq_rep%d.ndjson" % k)
+    def oq_replay(cases, k, is_rerun=False):
+        cf_ = W("oq%s.ndjson" % k); rep = W("oq_rep%s.ndjson" % k)
         vlib.write_ndjson(cf_, cases)
-        return harness(["oq", cf_, rep], "oq%d" % k, rep)
+        res = harness(["oq", cf_, rep], "oq%s" % k, rep)
+        if not is_rerun and isinstance(res["cur"], dict): res["rerun"] = lambda: oq_replay([res["cur"]], "%s-rerun" % k, True)
+        return res
 
-    def hostile_run(path, k, n, nseq, seqlen):
-        rep = W("host_rep%d.ndjson" % k)
-        return harness(["hostile", path, rep, str(seed), "150", str(nseq), str(seqlen), str(k), str(n)], "hostile%d" % k, rep)
+    def hostile_run(path, k, n, nseq, seqlen, is_rerun=False):
+        rep = W("host_rep%s.ndjson" % k)
+        if is_rerun: res = harness(["hostile", path, rep, str(seed), "100000", "0", "0"], "hostile%s" % k, rep)
+        else:        res = harness(["hostile", path, rep, str(seed), "150", str(nseq), str(seqlen), str(k), str(n)], "hostile%d" % k, rep)
+        if not is_rerun and isinstance(res["cur"], dict) and res["cur"].get("history"):
+            def again():
+                hp = W("host_rerun%s.ndjson" % k)
+                vlib.write_ndjson(hp, [dict(h["case"], **{"from": h["from"]}) for h in res["cur"]["history"]])
+                return hostile_run(hp, "%s-rerun" % k, 1, 0, 0, True)
+            res["rerun"] = again
+        return res
+
+    def reproduced(res):
+        """a watchdog report is time-dependent: the case / the history is run once more, alone, before it is believed"""
+        if "rerun" not in res: return True
+        rr = res["rerun"]()
+        again = rr["rc"] not in (0,) or any(r.get("hang") or r.get("violations") for r in rr["rows"])
+        if not again: vlib.log("NOTE property=C07 the watchdog fired once in %s but the case ran normally when repeated alone (machine overloaded?): not reported" % res["tag"])
+        return again
 
     def judge(res, what):
         summ = [r for r in res["rows"] if r.get("summary")]
         for r in res["rows"]:
             if r.get("summary"): continue
+            if r.get("hang"):
+                if not reproduced(res): return None
+                r = dict(r, case=res["cur"])
             if r.get("violations"):
                 v.violation("%s: %s" % (what, "; ".join(r["violations"][:2])), r, tag=res["tag"])
             elif r.get("drift"):
@@ -94,6 +115,8 @@ def run(v, tier, seed):
                 if v.drift <= 3: vlib.log("DRIFT property=C07 %s: %s" % (what, "; ".join(r["drift"][:2])[:500]))
         if res["rc"] != 0:
             if res["rc"] == -999: raise vlib.MachineryError("srv %s: timeout of the whole run (the in-harness watchdog did not fire): %s" % (res["tag"], res["stderr"][-800:]))
+            if res["rc"] == -9: raise vlib.MachineryError("srv %s was killed from outside (out of memory?)" % res["tag"])
+            if summ and summ[-1].get("hang"): return summ[-1]
             kind = "sanitizer report" if res["rc"] in (66, 67) else "crash (exit %s)" % res["rc"]
             v.violation("%s: %s of the server: %s" % (what, kind, " | ".join(l.strip() for l in res["stderr"].splitlines() if "ERROR" in l or "SUMMARY" in l or "runtime error" in l)[:600]),
                         {"case": res["cur"], "exit": res["rc"], "stderr": res["stderr"]}, tag=res["tag"] + "-crash")
@@ -105,7 +128,7 @@ def run(v, tier, seed):
     with cf.ThreadPoolExecutor(max_workers=16) as ex:
         f_mc = ex.submit(model_check); f_f1 = ex.submit(reach_f1); f_hs = ex.submit(hostile_space)
         hpath, hmeta = f_hs.result()
-        f_host = [ex.submit(hostile_run, hpath, k, nshard, 30 if quick else 400, 40 if quick else 60) for k in range(nshard)]
+        f_host = [ex.submit(hostile_run, hpath, k, nshard, 30 if quick else 1500, 40 if quick else 60) for k in range(nshard)]
         r, cases = f_mc.result()
         if len(cases) < 1000: raise vlib.MachineryError("OutQueue produced only %d cases" % len(cases))
         cases.sort(key=lambda c: json.dumps(c, sort_keys=True))
@@ -128,17 +151,17 @@ def run(v, tier, seed):
     if hs["injected"] < hmeta["cases"] and not v.violations: raise vlib.MachineryError("hostile: %d Messages enumerated, only %d injected" % (hmeta["cases"], hs["injected"]))
     hang_cases = sum(1 for c in cases if c["cmd"][0]["kind"] == "JR" and any(f in ("w1", "w2") for p in c["cmd"] for f in p["filt"]) and len(c["q0"]) >= 2)
     cov = {"evaluations": oq["cases"] + hs["injected"], "distinct_nontrivial": oq["followed"],
-           "rule": "OutQueue cases = every (queue of 0..3 result Messages over 8 shapes) x (19 command Messages: JETTISONRESULTS without keys / with keys / with keys + filters incl. a rejected archive, JETTISONDATATREES without / with ids, BATCHes nested up to 101) reachable in the TLC model, distinct by construction; non-trivial = the real server built exactly that queue behind a closed valve, handled the command within the watchdog, answered the witness's ping, and ended with the specification's queue both in-process and on the wire; hostile Messages = HostileSpace's enumeration, each once from a non-reading client plus seeded random sequences from two clients",
+           "rule": "OutQueue cases = every (queue of 0..%d result Messages over 8 shapes)" % (3 if quick else 4) + " x (19 command Messages: JETTISONRESULTS without keys / with keys / with keys + filters incl. a rejected archive, JETTISONDATATREES without / with ids, BATCHes nested up to 101) reachable in the TLC model, distinct by construction; non-trivial = the real server built exactly that queue behind a closed valve, handled the command within the watchdog, answered the witness's ping, and ended with the specification's queue both in-process and on the wire; hostile Messages = HostileSpace's enumeration, each once from a non-reading client plus seeded random sequences from two clients",
            "exhaustive": True,
            "states": r.distinct, "transitions": r.generated, "model_wall_s": round(r.wall, 1), "actions_taken": {a: r.coverage.get(a, (0, 0))[0] for a in ACTIONS},
            "outqueue_cases": len(cases), "cases_replayed": oq["cases"], "cases_followed": oq["followed"], "cases_drifted": oq["drifted"],
            "cases_in_the_F1_region": hang_cases, "result_messages_queued": oq["messages_queued"], "result_messages_received_after_opening_the_valve": oq["messages_arrived"],
            "hostile_space": hmeta, "hostile_messages_injected": hs["injected"], "server_instances": hs["servers"] + oq["cases"], "witness_pings_answered": hs["pings_answered"] + 2 * oq["followed"],
-           "senders_disconnected_by_their_own_message": hs["senders_lost"], "max_backlog_of_the_non_reading_client": backlog, "event_loop_pumps": oq["pumps"] + hs["pumps"], "slowest_pump_us": slow, "watchdog_cpu_s": 5, "watchdog_wall_s": 60,
+           "senders_disconnected_by_their_own_message": hs["senders_lost"], "max_backlog_of_the_non_reading_client": backlog, "event_loop_pumps": oq["pumps"] + hs["pumps"], "slowest_pump_us": slow, "watchdog_cpu_s": 5, "watchdog_wall_s": 120,
            "vacuity_guards": ["Deviations={F1} -> Terminates violated"],
            "samples": [{"kind": "OutQueue case", "case": cases[len(cases) // 3]}, {"kind": "OutQueue case", "case": cases[-1]}] + [{"kind": "hostile Message", "case": json.loads(l)} for l in open(hpath).readlines()[1000:1002]]}
-    assumptions = ["bounded time = every pump of the single-threaded event loop (ServerProcessLoop(0)) returns within a watchdog of 5 s CPU time and 60 s wall-clock time (normally well under a millisecond), for the enumerated Messages; a hang reachable only by a shape outside HostileSpace / OutQueue is not excluded",
-                   "the model's loops terminate (TLC, weak fairness) for queues of at most 3 result Messages over the 8 shapes; longer queues are covered by the injection passes only (backlog up to the number reported)",
+    assumptions = ["bounded time = every pump of the single-threaded event loop (ServerProcessLoop(0)) returns within a watchdog of 5 s CPU time and 120 s wall-clock time (normally well under a millisecond), for the enumerated Messages; a hang reachable only by a shape outside HostileSpace / OutQueue is not excluded",
+                   "the model's loops terminate (TLC, weak fairness) for queues of at most 3 (thorough: 4) result Messages over the 8 shapes; longer queues are covered by the injection passes only (backlog up to the number reported)",
                    "queue contents after a command are compared with OutQueue as DRIFT: the documentation says only 'removes data from outgoing result messages'",
                    "Messages nested deeper than ~1500 are not sent (F7, C02: the parser's recursion overflows the stack before any handler runs)"]
     return "exploration", cov, assumptions
